@@ -80,6 +80,10 @@ mut("C03-parents-relative-to-cwd", "C03", "file.go", "		path = filepath.Join(fil
 mut("C03-parent-false-ignored", "C03", "file.go", "	if noParent {\n		if len(parents) > 0 {", "	if noParent && len(f.docs) > 1 {\n		if len(parents) > 0 {")
 mut("C03-revert-skip-parent-fix", "C03", "parser.go", "	for _, doc := range f.docs {\n		doc.PopMapValue(\"$parent\")\n	}\n", "")
 mut("C03-unreadable-parent-skipped", "C03", "file.go", "		parentFiles, err := p.loadFileAndParents(parent, f)\n		if err != nil {\n			return nil, err\n		}", "		parentFiles, err := p.loadFileAndParents(parent, f)\n		if err != nil {\n			if strings.Contains(err.Error(), \"bkl error\") {\n				return nil, err\n			}\n			continue\n		}", "an I/O error on a parent layer (not a bkl error) silently skips the layer")
+mut("C08-revert-yaml-alias-guard", "C08", "yaml.go", "		if expanding[node.Alias] {", "		if false && expanding[node.Alias] {")
+mut("C03-revert-glob-escape", "C03", "file.go", "	dir := globEscape(filepath.Dir(f.path))", "	dir := filepath.Dir(f.path)")
+mut("C03-revert-findfile-stat-fix", "C03", "filepath.go", "		if _, err := os.Stat(extPath); err != nil {", "		if _, err := os.Stat(extPath); os.IsNotExist(err) {")
+mut("C09-revert-findfile-stat-fix", "C09", "filepath.go", "		if _, err := os.Stat(extPath); err != nil {", "		if _, err := os.Stat(extPath); os.IsNotExist(err) {", "a near-NAME_MAX layer name: the result depends on the order in which extensions are probed (fresh stock processes)")
 # ---- C20
 mut("C20-continue-on-eval-error", "C20", "wrapper/wrapper.go", "		err = b.MergeFileLayers(realPath)\n		if err != nil {\n			fatal(err)\n		}", "		err = b.MergeFileLayers(realPath)\n		if err != nil {\n			continue\n		}")
 mut("C20-format-of-real-file", "C20", "wrapper/wrapper.go", "		err = b.OutputToFile(tmp.Name(), f)", "		_ = f\n		err = b.OutputToFile(tmp.Name(), filepath.Ext(realPath)[1:])")
